@@ -350,7 +350,8 @@ def published(ctx):
         prove(ctx, 'C09-2.published', k + '.min_soc(no buffer)', an, 'eq', T(mn), P('min_soc').min(P('max_soc')), assume=A)
         prove(ctx, 'C09-2.published', k + '.max_soc(no buffer)', an, 'eq', T(mx), P('max_soc').max(P('min_soc')), assume=A)
     # generator / drivetrain: min(in_max·η, rating) (− aux)
-    for ty, fld, auxsub in (('GeneratorState', 'pwr_elec_out_max', False), ('ElectricDrivetrainState', 'pwr_mech_out_max', False)):
+    for ty, fld, auxsub in (('GeneratorState', 'pwr_elec_out_max', False), ('ElectricDrivetrainState', 'pwr_mech_out_max', False),
+                            ('ElectricDrivetrainState', 'pwr_mech_regen_max', False)):
         for b in inv.writers(ty, fld):
             if is_raw_setter(b): continue
             an = ana(ctx, 'C09-2.published', b)
@@ -358,10 +359,12 @@ def published(ctx):
             n += 1
             sv = StateView(an, locate(ctx, b, ty) or (('f', 'state'),))
             rating = T(('pre', (('obj', 1), ('f', 'pwr_out_max'))))
-            try:
-                pin = T(an.arg('pwr_in_max'))
-            except KeyError:
-                ctx.unproved('C09-2.published', b.fid, 'no pwr_in_max parameter', ctx.where(b)); continue
+            pin = None
+            if len(b.params) >= 2:
+                # the limit on the input side is the function's first argument after self, whatever it is called
+                pin = T(('pre', (('val', b.params[1][0]),)))
+            if pin is None:
+                ctx.unproved('C09-2.published', b.fid, 'no input-limit parameter', ctx.where(b)); continue
             post = sv.post(fld).t
             eta = _find_eta(post)
             k = '%s|%s.%s' % (b.fid, ty, fld)
